@@ -1,6 +1,7 @@
 import Td.Apply
 import Td.Filter
 import Td.BlobHealthy
+import Td.Consume
 
 /-! # C20 — property theorems (statements only; proofs live in the family libraries) -/
 
@@ -38,6 +39,37 @@ theorem consume_healthy :
     ∃ st, consume prev chs = some st ∧ AllBlob st.next ∧
       ∀ c ∈ chs, ∀ e ∈ c.ents, get st.out e.hash = some .blob :=
   @Bc.consume_healthy
+end
+
+section
+open Td
+
+/-- a commit whose parents do not include the branch's previous commit is refused, and nothing else is -/
+theorem consume_refuses_iff :
+    ∀ (cfg : Cfg) (s : St) (commit : Nat) (parents : List Nat) (tree : List File),
+    (∃ e, consume cfg s commit parents tree = .error e) ↔ ∃ p, s.prevCommit = some p ∧ p ∉ parents :=
+  @Td.consume_refuses_iff
+
+/-- the first commit of a branch reports every passing file as an addition (submodule entries: finding D15) -/
+theorem consume_first :
+    ∀ (cfg : Cfg) (commit : Nat) (parents : List Nat) (tree : List File),
+    consume cfg ⟨none, none⟩ commit parents tree =
+      .ok (⟨some tree, some commit⟩,
+           ((tree.filter fun f => !f.sub).map fun f => (⟨none, some f⟩ : Change)).filter (keep cfg)) :=
+  @Td.consume_first
+
+/-- along a branch: for consecutive commits (each a child of the previous one) every replay succeeds and the changes
+reported for each commit turn the filtered file set of the previous commit into the filtered file set of that commit -/
+theorem replay_applies :
+    ∀ (cfg : Cfg) (vend rxm : String → Bool) (hs : Sane cfg)
+    (rest : List (Nat × List Nat × List File)) (prev : List File) (pc : Nat),
+    Chained pc rest → (prev.map (·.path)).Nodup → Facts vend rxm prev →
+    (∀ x ∈ rest, (x.2.2.map (·.path)).Nodup ∧ Facts vend rxm x.2.2) →
+    ∃ out, replay cfg ⟨some prev, some pc⟩ rest = .ok out ∧ out.length = rest.length ∧
+      ∀ i (hi : i < rest.length) (ho : i < out.length) (p : String),
+        after (((if i = 0 then prev else (rest[i - 1]'(by omega)).2.2)).filter fun f => pass cfg vend rxm f.path) (out[i]'ho) p =
+          (find ((rest[i]'hi).2.2.filter fun f => pass cfg vend rxm f.path) p).map hm :=
+  @Td.replay_applies
 end
 
 end Props.C20
